@@ -174,6 +174,14 @@ def check_case(ctx: Ctx, cfgname, form, text_s: str, width, wrap, align):
         if not (rows == crow == len(lay)):
             V("rows", f"rows()={rows} rendered rows={crow} layout lines={len(lay)}")
         got_rows = [b"".join(seg[2] for seg in row).decode(codec) for row in canv.content()]
+        if width == 1:
+            # once per text: the size reported without any width (the natural size) is the size rendered without any width
+            pw, pr = t.pack(())
+            if pw >= 1:
+                r2 = t.rows((pw,))
+                c2 = t.render(())
+                if not (pr == r2 == c2.rows()) or c2.cols() != pw:
+                    V("rows", f"pack(()) reports {(pw, pr)}; rows(({pw},)) = {r2}; render(()) is {c2.cols()}x{c2.rows()}", "/natural-size")
     except Exception as e:
         V("render-ok", f"Text.render/rows raised {e!r}", "/" + exc_site(e))
         got_rows = None
